@@ -66,8 +66,8 @@ CHECKS = {
   tech="bounded-exhaustive enumeration of data x spellings through encode/decode with a reference-value comparison",
   ref="DESIGN.md §5 C13"),
  "C18": dict(
-  text="deviation-bounded exploration (stateless DFS with prefix replay over the reader's answers: full request, 1, 2, 3, len-1, 0 bytes, data together with io.EOF) with <=1 (quick) / <=2 (thorough) deviations per run on 742 documents built with known offsets (14 token kinds straddling the 1024-byte buffer edge at every alignment in 3 padding styles, multi-byte characters, CR/LF mixes, comments) and 7 invalid documents; every uniform chunk size 1..1030; a reader failure at every byte offset (error alone / with data, then error again / EOF); oracle: whole-slice parse (ASTs, positions, error text) and positions computed from the construction of the document, incl. Diagnostic positions",
-  note="bounded: <=2 deviations per schedule, documents <=6 KB; a reader never returns 0 bytes twice in a row",
+  text="deviation-bounded exploration (stateless DFS with prefix replay over the reader's answers: full request, 1, 2, 3, len-1, 0 bytes, data together with io.EOF) with <=2 (quick) / <=4 (thorough) deviations per run on 742 documents built with known offsets (14 token kinds straddling the 1024-byte buffer edge at every alignment in 3 padding styles, multi-byte characters, CR/LF mixes, comments) and 7 invalid documents; every uniform chunk size 1..1030; a reader failure at every byte offset (error alone / with data, then error again / EOF); oracle: whole-slice parse (ASTs, positions, error text) and positions computed from the construction of the document, incl. Diagnostic positions",
+  note="bounded: <=4 deviations per schedule, documents <=6 KB; a reader never returns 0 bytes twice in a row",
   tech="deviation-bounded exhaustive exploration of environment (io.Reader) answers + exhaustive fault positions, against a whole-input reference parse",
   ref="DESIGN.md §5 C18"),
  "C20": dict(
